@@ -164,10 +164,18 @@ pub fn run_item(prop: &str, tier: &str, idx: usize, only: Option<&Value>) -> MRe
         }
         if cases.is_empty() { continue; }
         let ops: Vec<Op> = cases.iter().map(|c| c.op.clone()).collect();
-        k.send(ops.clone())?;
-        e.send(ops)?;
-        let mut ko = k.recv(cases.len())?;
-        let mut eo = e.recv(cases.len())?;
+        // trees with a FIFO: the two workers (and the oracle) must not hold its ends open at the same time, because
+        // whether open(O_WRONLY|O_NONBLOCK) gives ENXIO depends on a concurrent reader - strictly one after the other
+        let (mut ko, mut eo);
+        if has_fifo {
+            ko = k.call(ops.clone())?;
+            eo = e.call(ops)?;
+        } else {
+            k.send(ops.clone())?;
+            e.send(ops)?;
+            ko = k.recv(cases.len())?;
+            eo = e.recv(cases.len())?;
+        }
         for (i, c) in cases.iter().enumerate() {
             let path = c.op.path.as_deref().unwrap();
             let mut want = kernel_oracle(rootfd.as_raw_fd(), c);
